@@ -45,6 +45,8 @@ type Ctx struct {
 	fnsSeen  map[*ssa.Function]bool
 	notes    []string
 	rulesRun []string
+
+	keyLoopsMemo []keyLoop
 }
 
 func newCtx(P *Prog, prop, tier string) *Ctx {
